@@ -133,7 +133,13 @@ Items == <<
   \* 64: n3|: ['5', 'x*']
   [field |-> <<110, 51>>, chain |-> <<>>, vals |-> <<SS(<<53>>), SS(<<120, 42>>)>>, single |-> FALSE],
   \* 65: n4|contains: '12'
-  [field |-> <<110, 52>>, chain |-> <<<<99, 111, 110, 116, 97, 105, 110, 115>>>>, vals |-> <<SS(<<49, 50>>)>>, single |-> TRUE]
+  [field |-> <<110, 52>>, chain |-> <<<<99, 111, 110, 116, 97, 105, 110, 115>>>>, vals |-> <<SS(<<49, 50>>)>>, single |-> TRUE],
+  \* 66: |neq: 'nkw'
+  [field |-> <<>>, chain |-> <<<<110, 101, 113>>>>, vals |-> <<SS(<<110, 107, 119>>)>>, single |-> TRUE],
+  \* 67: |neq: ['nk1', 'nk2']
+  [field |-> <<>>, chain |-> <<<<110, 101, 113>>>>, vals |-> <<SS(<<110, 107, 49>>), SS(<<110, 107, 50>>)>>, single |-> FALSE],
+  \* 68: |contains|neq: 'nkc'
+  [field |-> <<>>, chain |-> <<<<99, 111, 110, 116, 97, 105, 110, 115>>, <<110, 101, 113>>>>, vals |-> <<SS(<<110, 107, 99>>)>>, single |-> TRUE]
 >>
 KwLists == <<
   <<SS(<<102, 111, 111>>), SS(<<98, 97, 42, 114>>)>>,
